@@ -1626,3 +1626,71 @@ def r07_15(ctx):
                 ctx.bad(f"{short}|yield-without-progress", f"{short} can yield an item without having changed any of its own fields: the next call starts from the same position and "
                         "yields the same item again - a loop draining the iterator over a crafted option never terminates", body=b, bb=sbb)
     ctx.need(n >= 1, "yielding paths of option iterators in src/wire")
+
+
+@rule('R07.16', ['C07', 'C03'], floor=8, clause='a length validator does not itself read outside the buffer: inside every check_len each read of the buffer at a constant position - directly or through one of the view\'s own accessors - comes after a test that the buffer is at least that long')
+def r07_16(ctx):
+    from ..bitfield import _is_buffer
+    F = ctx.F
+    views = wire_views(F)
+    ctx.need(len(views) >= 15, "wire views with check_len")
+
+    def islen(m):
+        m = _canon(simplify(m))
+        return (m[0] == 'len' and _is_buffer(m[1], None)) or (m[0] == 'call' and m[1].endswith('::len') and len(m[2]) == 1 and _is_buffer(m[2][0], None))
+    n = 0
+    for adt, b in sorted(views.items()):
+        if adt in ('wire::ieee802154::Frame',):
+            continue            # value-dependent layout, see R07.9
+        short = adt.split('::', 1)[1]
+        needs = []              # (bb, need, what)
+        for a in buffer_accesses(F, b, adt):
+            if a['const'] is not None and a['const'] > 0:
+                needs.append((a['bb'], a['const'], f"buffer[..{a['const']}] at line {a['line']}"))
+        for x in b.calls():
+            cn = b.callee_name(x[1]) or ''
+            cb = F.bodies.get(cn)
+            if cb is None or cb.meta.get('impl_self') != adt or cb.key == b.key or not x[2]:
+                continue
+            rcv = _canon(simplify(F.origin.operand(b, x[2][0], x[0], len(b.blocks[x[0]]['s']))))
+            if rcv not in (('arg', 1), ('field', ('arg', 1), ())):
+                continue
+            accs = buffer_accesses(F, cb, adt)
+            consts = [a['const'] for a in accs if a['const'] is not None]
+            if accs and len(consts) == len(accs) and max(consts) > 0:
+                needs.append((x[0], max(consts), f"{cn.rsplit('::', 1)[-1]}() reading {max(consts)} octets"))
+        if not needs:
+            continue
+        # guard edges: len >= K  (and len != K, which lifts a dominating len >= K to len >= K + 1)
+        guards, nes = [], []
+        for bi, bl in enumerate(b.blocks):
+            if bl['cl'] or bl['t'][0] != 'switch':
+                continue
+            for tb, lab, f in cond_facts(F, b, bi):
+                if f[0] != 'rel':
+                    continue
+                for x_, y_, ops in ((f[2], f[3], {'Ge': 0, 'Gt': 1, 'Eq': 0}), (f[3], f[2], {'Le': 0, 'Lt': 1, 'Eq': 0})):
+                    if f[1] in ops and islen(x_):
+                        k = const_of(simplify(y_))
+                        if k is not None:
+                            guards.append(((bi, tb, lab), k + ops[f[1]]))
+                    if f[1] == 'Ne' and islen(x_) and const_of(simplify(y_)) is not None:
+                        nes.append(((bi, tb, lab), const_of(simplify(y_))))
+                # `!buffer.is_empty()`
+            for tb, lab, f in cond_facts(F, b, bi):
+                if f[0] == 'bool' and f[2] is False and is_call(strip(f[1]), '::is_empty') and _is_buffer(_canon(simplify(strip(f[1])[2][0])), None):
+                    guards.append(((bi, tb, lab), 1))
+        for bb, need, what in needs:
+            n += 1
+            dom = [k for e, k in guards if bb not in b.reachable(cut_edges={e})]
+            domne = {k for e, k in nes if bb not in b.reachable(cut_edges={e})}
+            best = max(dom) if dom else 0
+            while best in domne:
+                best += 1
+            okg = best >= need
+            if okg:
+                ctx.ok((short, 'check_len read', bb), sample=dict(view=short, read=what, after=f"len >= {need}"))
+            else:
+                ctx.bad(f"{short}::check_len|reads-before-length-test|{need}", f"{short}::check_len itself reads the buffer ({what}) before any test that the buffer has {need} octets: "
+                        "new_checked() on a shorter byte string panics instead of answering Err", body=b, bb=bb)
+    ctx.need(n >= 8, f"buffer reads inside check_len validators (found {n})")
